@@ -343,6 +343,7 @@ where
                     match next {
                         // Wait for notification when the stream goes pending
                         Poll::Pending       => {
+                            #[cfg(desync_verif)] crate::scheduler::verif_hooks::point("pipe:before_register_closed");
                             stream_core.lock().unwrap().notify_stream_closed = Some(desync_waker.clone());
                             return true
                         },
